@@ -40,6 +40,7 @@ type realOp struct {
 	O         int    `json:"o"`
 	G         int    `json:"g"`
 	List      string `json:"list"`       // for watch: how LIST of kind g behaves during the call: ok | hang | fail
+	Sns       *int   `json:"sns"`        // for watch: namespace of the sample object (index into realNamespaces; default 1)
 	TimeoutMs int    `json:"timeout_ms"` // deadline of the call's context (0: 150 ms if LIST hangs/fails, else 5 s)
 }
 
@@ -54,11 +55,34 @@ type realStepObs struct {
 	Snap      []*[]int `json:"snap"`      // OwnersForGKV per kind after the op
 	Streams   []int    `json:"streams"`   // open WATCH streams per kind once things settled after the op
 	Delivered [][]int  `json:"delivered"` // per kind: handlers that received the event sent down its streams
-	Entries   []bool   `json:"entries"`   // per kind: the informer map has an entry (diagnostics only)
+	Entries   int      `json:"entries"`   // entries of the informer map (diagnostics only)
+	// reads through the cache of the kind the operation addressed (watch/get/list), after it settled:
+	// Get for every namespace x name of the battery, List for all namespaces and for one namespace.
+	Gets  []realGet  `json:"gets"`
+	Lists []realList `json:"lists"`
+}
+
+// namespaces and names are numbered: realNamespaces[0] = "" (none); names[2] never exists.
+type realGet struct {
+	G     int    `json:"g"`
+	Ns    int    `json:"ns"`
+	Name  int    `json:"name"`
+	Class string `json:"class"`  // found | notfound | notstarted | other:<msg>
+	GotNs int    `json:"got_ns"` // namespace / name of the returned object
+	GotN  int    `json:"got_n"`
+}
+
+type realList struct {
+	G     int      `json:"g"`
+	Ns    int      `json:"ns"`
+	Class string   `json:"class"` // ok | notstarted | other:<msg>
+	Keys  [][2]int `json:"keys"`  // (namespace, name) of the returned objects, sorted
 }
 
 type realObs struct {
 	Steps []realStepObs `json:"steps"`
+	Scope []bool        `json:"scope"` // per kind: namespaced according to the API (RESTMapper)
+	Store [][][2]int    `json:"store"` // per kind: (namespace, name) of the objects the API server serves
 	Peak  []int         `json:"peak"`  // per kind: most WATCH streams ever open at the same time
 	Lists []int         `json:"lists"` // per kind: LIST calls seen (diagnostics only)
 }
@@ -136,7 +160,107 @@ func (r *fakeDynResource) List(ctx context.Context, _ metav1.ListOptions) (*unst
 	l.SetAPIVersion(gvk.GroupVersion().String())
 	l.SetKind(gvk.Kind + "List")
 	l.SetResourceVersion("1")
+	for _, key := range realStore(k) {
+		u := unstructured.Unstructured{}
+		u.SetGroupVersionKind(gvk)
+		u.SetNamespace(realNamespaces[key[0]])
+		u.SetName(realNames[key[1]])
+		u.SetResourceVersion("1")
+		l.Items = append(l.Items, u)
+	}
 	return l, nil
+}
+
+var (
+	realNamespaces = []string{"", "ns-a", "ns-b", "ns-c"}
+	realNames      = []string{"x", "y", "z"}
+)
+
+// realStore: what the fake API server serves for a kind: namespaced kinds have x in ns-a and
+// ns-b and y in ns-a, cluster-scoped kinds have x and y; nothing is called z or lives in ns-c.
+func realStore(k int) [][2]int {
+	if kindNamespaced(k) {
+		return [][2]int{{1, 0}, {1, 1}, {2, 0}}
+	}
+	return [][2]int{{0, 0}, {0, 1}}
+}
+
+func indexOf(xs []string, x string) int {
+	for i, y := range xs {
+		if x == y {
+			return i
+		}
+	}
+	return -1
+}
+
+// realOwner: owner 2 is cluster-scoped, all others are namespaced.
+func realOwner(i int) client.Object {
+	o := ownerObject(i)
+	if i == 2 {
+		o.SetNamespace("")
+	}
+	return o
+}
+
+// readBattery reads kind k through the cache in every way the battery knows.
+func readBattery(c *dynamiccache.Cache, k int) ([]realGet, []realList) {
+	bg := context.Background()
+	var gets []realGet
+	var lists []realList
+	classify := func(err error, found string) string {
+		var notStarted *dynamiccache.CacheNotStartedError
+		switch {
+		case err == nil:
+			return found
+		case apierrors.IsNotFound(err):
+			return "notfound"
+		case errors.As(err, &notStarted):
+			return "notstarted"
+		}
+		return "other:" + err.Error()
+	}
+	for ns := range realNamespaces {
+		for n := range realNames {
+			// the out object carries the namespace too, as callers that fill in desired objects do
+			out := kindObjectNS(k, realNamespaces[ns])
+			out.SetName(realNames[n])
+			err := c.Get(bg, client.ObjectKey{Namespace: realNamespaces[ns], Name: realNames[n]}, out)
+			g := realGet{G: k, Ns: ns, Name: n, Class: classify(err, "found"), GotNs: -1, GotN: -1}
+			if err == nil {
+				g.GotNs, g.GotN = indexOf(realNamespaces, out.GetNamespace()), indexOf(realNames, out.GetName())
+			}
+			gets = append(gets, g)
+		}
+	}
+	for _, ns := range []int{0, 1} {
+		l := &unstructured.UnstructuredList{}
+		gvk := kindGVK(k)
+		gvk.Kind += "List"
+		l.SetGroupVersionKind(gvk)
+		var opts []client.ListOption
+		if ns != 0 {
+			opts = append(opts, client.InNamespace(realNamespaces[ns]))
+		}
+		err := c.List(bg, l, opts...)
+		rl := realList{G: k, Ns: ns, Class: classify(err, "ok"), Keys: [][2]int{}}
+		if err == nil {
+			for _, it := range l.Items {
+				if len(it.GetName()) > 3 && it.GetName()[:3] == "ev-" {
+					continue // the probe events of this harness
+				}
+				rl.Keys = append(rl.Keys, [2]int{indexOf(realNamespaces, it.GetNamespace()), indexOf(realNames, it.GetName())})
+			}
+			sort.Slice(rl.Keys, func(i, j int) bool {
+				if rl.Keys[i][0] != rl.Keys[j][0] {
+					return rl.Keys[i][0] < rl.Keys[j][0]
+				}
+				return rl.Keys[i][1] < rl.Keys[j][1]
+			})
+		}
+		lists = append(lists, rl)
+	}
+	return gets, lists
 }
 
 type countedWatch struct {
@@ -282,7 +406,11 @@ func runReal(sc realScenario) (any, error) {
 	mapper := meta.NewDefaultRESTMapper(nil)
 	for i := 0; i < sc.Kinds; i++ {
 		gvk := kindGVK(i)
-		mapper.Add(gvk, meta.RESTScopeNamespace)
+		if kindNamespaced(i) {
+			mapper.Add(gvk, meta.RESTScopeNamespace)
+		} else {
+			mapper.Add(gvk, meta.RESTScopeRoot)
+		}
 		m, err := mapper.RESTMapping(gvk.GroupKind(), gvk.Version)
 		if err != nil {
 			return nil, err
@@ -323,7 +451,11 @@ func runReal(sc realScenario) (any, error) {
 				mode = "ok"
 			}
 			d.setBehave(op.G, mode)
-			err = c.Watch(ctx, ownerObject(op.O), kindObject(op.G))
+			sns := 1
+			if op.Sns != nil {
+				sns = *op.Sns
+			}
+			err = c.Watch(ctx, realOwner(op.O), kindObjectNS(op.G, realNamespaces[sns]))
 			// the API server recovers once the call is over
 			d.setBehave(op.G, "ok")
 			if mode == "fail" {
@@ -331,7 +463,7 @@ func runReal(sc realScenario) (any, error) {
 				quiet = 1800 * time.Millisecond
 			}
 		case "free":
-			err = c.Free(ctx, ownerObject(op.O))
+			err = c.Free(ctx, realOwner(op.O))
 		case "get":
 			err = c.Get(ctx, client.ObjectKey{Name: "x", Namespace: "ns"}, kindObject(op.G))
 		case "list":
@@ -355,13 +487,15 @@ func runReal(sc realScenario) (any, error) {
 			}
 			return true
 		})
-		st := realStepObs{Err: classifyRealErr(err), Snap: make([]*[]int, sc.Kinds), Entries: make([]bool, sc.Kinds),
-			Delivered: make([][]int, sc.Kinds)}
+		st := realStepObs{Err: classifyRealErr(err), Snap: make([]*[]int, sc.Kinds), Entries: c.VerifInformerMapLen(),
+			Delivered: make([][]int, sc.Kinds), Gets: []realGet{}, Lists: []realList{}}
 		for k := 0; k < sc.Kinds; k++ {
 			st.Snap[k] = sortedOwners(c.OwnersForGKV(kindGVK(k)))
-			st.Entries[k] = c.VerifInformerMapHas(kindGVK(k))
 		}
 		st.Streams = d.streams()
+		if op.Op != "free" {
+			st.Gets, st.Lists = readBattery(c, op.G)
+		}
 		// send one event down the open streams of every kind and see who gets it
 		seq++
 		for k := 0; k < sc.Kinds; k++ {
@@ -397,7 +531,11 @@ func runReal(sc realScenario) (any, error) {
 	d.mu.Unlock()
 	// let the informers go: free every owner (best effort) so goroutines do not pile up in the process
 	for o := 0; o < 4; o++ {
-		_ = c.Free(bg, ownerObject(o))
+		_ = c.Free(bg, realOwner(o))
+	}
+	for k := 0; k < sc.Kinds; k++ {
+		obs.Scope = append(obs.Scope, kindNamespaced(k))
+		obs.Store = append(obs.Store, realStore(k))
 	}
 	return obs, nil
 }
